@@ -107,9 +107,18 @@ def changed_recompute(rep, mod, rule, only=None):
         for e in stores:
             if not (nt(e.r.slice).startswith('EACH(') and SRO in nt(e.r.slice)):
                 prob['implied'].append('implied[%s] stored' % nt(e.r.slice)[:40])
-        if not any(e.kind == 'store' and nt(e.r) == 'self._v_attrs' and nt(e.val) == 'None'
-                   for e in ps.events):
+        resets = [ps.index(e) for e in ps.events if e.kind == 'store' and
+                  nt(e.r) == 'self._v_attrs' and nt(e.val) == 'None']
+        if not resets:
             prob['v_attrs'].append('_v_attrs not reset on a path')
+        elif min(resets) > cidx:
+            # dependents are notified (and may read attributes, or raise)
+            # between the recomputation and a reset that only comes last
+            prob['v_attrs'].append('the attribute memo is only dropped after the '
+                                   'order was recomputed and dependents were '
+                                   'notified: they (and everyone, if one of them '
+                                   'raises) still see memoized descriptions of the '
+                                   'old order')
     # the implied loop has no filter: a store on both isinstance outcomes when
     # loops are merged is covered above; separately require an unfiltered loop
     texts = {
